@@ -802,3 +802,51 @@ def rule_cache_publication(check, rule):
                                 'that looks the entry up in between gets the placeholder' % (s_.target[2], show(s_.args[1])[:40]), key=key,
                                 witness='first access of obj.method from two threads: one of them gets the unbound wrapper')
     check.floor(rule, 'storing paths of OverrideableDataDesc.__get__', n, 1)
+
+
+def rule_stacked_anchor_getters(check, rule):
+    """C18.R2b: stacking over an anchor-based selection (start= / end=).
+    An *anchor-based getter* is a function handed to the translator as `get=` that re-derives the selected names from the
+    function it is given (loop over its parameters, positional-or-keyword ones only) and raises ValueError when its
+    anchor is not among them.  `_merge_other` (a) unions the inner translator's *resolved* name sets into the outer's and
+    (b) composes the inner getter after the outer one.  On bound access the outer getter rebuilds the translator with
+    the merged names -- resolved on the unbound function -- and then hands the already converted function to the inner
+    anchor-based getter: its anchor is no longer positional-or-keyword (ValueError), and resolved names may include the
+    first parameter that binding removed ("Parameters not found: self").  Necessary condition: an inner selection is
+    applied to the bound function once, by re-derivation *or* by resolved names, not both."""
+    repo = check.repo
+    mod = repo.module('modifiers')
+    anchors = []
+    for fi in repo.all_funcs():
+        if fi.module.name != 'modifiers' or fi.cls is not None:
+            continue
+        gets = [n for n in ast.walk(fi.node) if isinstance(n, ast.keyword) and n.arg == 'get']
+        raises = [n for n in ast.walk(fi.node) if isinstance(n, ast.Raise) and n.exc is not None and 'ValueError' in norm(n.exc)]
+        pok_loop = any(isinstance(n, ast.Compare) and 'POSITIONAL_OR_KEYWORD' in norm(n) for n in ast.walk(fi.node))
+        selfref = any(fi.name in norm(g.value) for g in gets)
+        if gets and raises and pok_loop and selfref:
+            anchors.append(fi)
+    mo = repo.func(PT + '._merge_other')
+    check.analysed(mo)
+    unions = [n for n in ast.walk(mo.node) if isinstance(n, ast.AugAssign) and isinstance(n.op, ast.BitOr) and 'names' in norm(n.target)]
+    composes = [n for n in ast.walk(mo.node) if isinstance(n, ast.Call) and norm(n.func).endswith('Combination')
+                and any('custom_getter' in norm(a) for a in n.args)]
+    key = PT + '._merge_other|anchor-getter-composition'
+    st = site_of(mo, mo.node)
+    if not anchors:
+        check.holds(rule, st, 'no anchor-based (start=/end=) getter exists: resolved names are all there is to merge', key=key, nontrivial=False)
+        return
+    for a in anchors:
+        check.analysed(a)
+    if unions and composes:
+        check.violation(rule, site_of(mo, composes[0]), '_merge_other unions the inner translator\'s resolved name sets into the outer one *and* composes '
+                        'the inner getter after the outer getter; for the anchor-based getters %s the inner selection is then applied twice on bound '
+                        'access -- by names resolved on the unbound function (they may include the parameter that binding removes) and by '
+                        're-derivation on the already converted function (the anchor is no longer positional-or-keyword)'
+                        % ', '.join(a.name for a in anchors), key=key,
+                        witness="class K:\n    @kwoargs('a')\n    @kwoargs(start='b')\n    def m(self, a, b, c): ...\nK().m raises ValueError ('b' not found); "
+                                "kwoargs('c') over posoargs(end='a'): ValueError: Parameters not found: self")
+    elif unions or composes:
+        check.holds(rule, st, 'an inner selection reaches the bound function one way only (%s)' % ('resolved names' if unions else 'its getter'), key=key)
+    else:
+        check.inconclusive(rule, st, '_merge_other neither unions name sets nor composes getters', key=key)
